@@ -71,7 +71,7 @@ func modelAnswers(m *polModel, probe []string) string {
 
 func TestC25PolicyStateMachine(t *testing.T) {
 	col := stats.Get("C25.policy")
-	dir, _ := os.MkdirTemp("", "c25")
+	dir := fastTempDir("c25")
 	defer os.RemoveAll(dir)
 	n := 0
 	probe := append(pkPool(), fmt.Sprintf("03%064x", 99))
